@@ -205,7 +205,10 @@ def parse_with_formats(date_string, date_formats, settings):
                 today = datetime.today()
                 date_obj = date_obj.replace(year=today.year)
 
-            date_obj = apply_timezone_from_settings(date_obj, settings)
+            try:
+                date_obj = apply_timezone_from_settings(date_obj, settings)
+            except OverflowError:
+                continue
 
             return DateData(date_obj=date_obj, period=period)
     else:
@@ -291,7 +294,7 @@ class _DateLocaleParser:
                 date_obj=date_obj,
                 period=period,
             )
-        except ValueError:
+        except (OverflowError, ValueError):
             self._settings.DATE_ORDER = _order
             return None
 
